@@ -1,7 +1,47 @@
-(* C04 - placeholder *)
-From Coq Require Import List ZArith QArith Qcanon.
-From MsmV Require Import Lib.Result Lib.QMat Model.Ergodic Model.Peq.
+(* C04 - Equilibrium population is the stationary probability vector.
+   Statements only.  Partial: existence/stationarity are certified per case and
+   proved for whatever the model returns; uniqueness of the stationary vector of a
+   matrix with a single closed class (textbook) is stated, not proved. *)
+From Coq Require Import List ZArith Arith Bool QArith Qcanon.
+From MsmV Require Import Lib.Result Lib.PyList Lib.QMat Model.Ergodic Model.Peq Proofs.QMatFacts Proofs.HSFacts Proofs.ErgodicFacts.
 Import ListNotations.
+Local Open Scope nat_scope.
+
+(* whatever vector the model returns for an ergodic matrix is a probability vector with pi T = pi *)
+Theorem peq_ergodic_stationary : forall T allow v,
+  is_ergodic atol8 T = true -> peq T allow = Ok (Some v) ->
+  vmul v T = v /\ qsum v = 1%Qc /\ (forall x, In x v -> (0 <= x)%Qc).
+Proof.
+  intros T allow v He. unfold peq. rewrite He. cbn [negb andb]. rewrite Bool.andb_false_r.
+  intros H. injection H as H. apply stationary_spec. exact H.
+Qed.
+Print Assumptions peq_ergodic_stationary.
+
+(* for any other accepted matrix: the certified vector of the renormalised restriction, zero outside the mask *)
+Theorem peq_general : forall T v,
+  is_ergodic atol8 T = false -> peq T true = Ok (Some v) ->
+  exists mask w, ergodic_mask atol8 T = Ok mask /\ v = scatter mask w /\
+    let T' := row_normalize (restrict_mat mask T) in
+    vmul w T' = w /\ qsum w = 1%Qc /\ (forall x, In x w -> (0 <= x)%Qc).
+Proof.
+  intros T v He. unfold peq. rewrite He. cbn [negb andb].
+  destruct (ergodic_mask atol8 T) as [mask|] eqn:Em; cbn [bind]; [|discriminate].
+  destruct (stationary _) as [w|] eqn:Es; [|discriminate].
+  intros H. injection H as <-. exists mask, w. split; [reflexivity|]. split; [reflexivity|].
+  apply stationary_spec. exact Es.
+Qed.
+Print Assumptions peq_general.
+
+(* with allow_non_ergodic=False every non-ergodic input is rejected *)
+Theorem peq_strict_rejects : forall T, is_ergodic atol8 T = false -> peq T false = Err ValueError.
+Proof. intros T He. unfold peq. now rewrite He. Qed.
+Print Assumptions peq_strict_rejects.
+
+(* full statement of the uniqueness used by clause 1 (not proved here) *)
+Definition stationary_unique_full : Prop := forall n T v w,
+  0 < n -> wf n n T -> rows_sum_one T -> entries_nonneg T -> primitive (supp T) ->
+  vmul v T = v -> vmul w T = w -> qsum v = 1%Qc -> qsum w = 1%Qc -> length v = n -> length w = n -> v = w.
+
 Example peq_example :
   let T := row_normalize (mat_of_Z [[1; 1; 0]; [1; 3; 0]; [1; 1; 2]]%Z) in
   rmap (option_map (map (fun q : Qc => this q))) (peq T true) = Ok (Some [1 # 3; 2 # 3; 0]%Q)
